@@ -143,7 +143,7 @@ def run_tokens(ctx, n, first):
 
 
 def cubes_tokens(tier, seed):
-    nmax = 7 if tier == 'quick' else 10
+    nmax = 7 if tier == 'quick' else 11
     out = []
     for n in range(1, nmax + 1):
         for first in ('check', '(', 'not'):     # others reject at once
@@ -254,8 +254,13 @@ def cubes_lexical(tier, seed):
         return [{'shape': i, 'wsmax': 1, 'groups': 1}
                 for i in range(len(LEX_SHAPES))] + \
                [{'shape': i, 'wsmax': 2, 'groups': 0} for i in range(6)]
-    return [{'shape': i, 'wsmax': 2, 'groups': 2}
-            for i in range(len(LEX_SHAPES))]
+    # measured: wsmax 2 with redundant groups exceeds 3000 s per cube for
+    # the larger shapes; the combinations below finish in minutes
+    return [{'shape': i, 'wsmax': 1, 'groups': 2}
+            for i in range(len(LEX_SHAPES))] + \
+           [{'shape': i, 'wsmax': 2, 'groups': 0} for i in range(8)] + \
+           [{'shape': i, 'wsmax': 2, 'groups': 1} for i in range(5)] + \
+           [{'shape': i, 'wsmax': 3, 'groups': 0} for i in range(6)]
 
 
 # -- list-of-lists ------------------------------------------------------------
@@ -392,6 +397,7 @@ def run_gen(ctx, seed, index, budget, nleaves, summary):
     ctx.cover('gen:summary' if summary else 'gen:path')
     ctx.observe('text', text)
     if isinstance(got, SymBool):
+        ctx.observe('decision', got)
         cond = mkbool(want == got.e)
     else:
         ctx.observe('decision', bool(got))
@@ -409,12 +415,12 @@ def cubes_gen(tier, seed):
             out.append({'seed': seed, 'index': i, 'budget': 60,
                         'nleaves': 24, 'summary': True})
     else:
-        for i in range(150):
-            out.append({'seed': seed, 'index': i, 'budget': 16,
-                        'nleaves': 7, 'summary': False})
-        for i in range(150, 300):
-            out.append({'seed': seed, 'index': i, 'budget': 70,
-                        'nleaves': 30, 'summary': True})
+        for i in range(300):
+            out.append({'seed': seed, 'index': i, 'budget': 24,
+                        'nleaves': 9, 'summary': False})
+        for i in range(300, 700):
+            out.append({'seed': seed, 'index': i, 'budget': 90,
+                        'nleaves': 36, 'summary': True})
     return out
 
 
@@ -446,7 +452,7 @@ def evidence(tier):
         'bounds': {
             'tokens': 'every sequence over the 6 token kinds of length <= '
                       '%d (kinds decided lazily by the solver)' % (
-                          7 if tier == 'quick' else 10),
+                          7 if tier == 'quick' else 11),
             'lexical': '%d expression shapes; every keyword letter upper or '
                        'lower; every whitespace run of 1..%d chars over %d '
                        'Unicode whitespace characters; optional whitespace '
